@@ -13,6 +13,9 @@ ASSUMPTIONS = [
 _L = ("static analysis over the ast of /repo/bellows: {what}. Decided for all inputs/paths of the analysed "
       "functions within the trusted base; the clauses listed under undecided_clauses are NOT decided.")
 
+# properties whose rule set is complete enough to be claimed in MANIFEST.json
+READY = ["C01", "C04", "C05"]
+
 PROPS = {
     "C01": {
         "level": _L.format(what="shielded send (who-may-call), exhaustive 8x8 acknowledgement-coverage table, ack "
